@@ -26,7 +26,8 @@
 (*   normals - the repaired mesh is F again and count = number flipped      *)
 (* kind "forest": [parent: <<p>>, got: <<p>>, nfaces, per: <<n>>,           *)
 (*   probes: <<[in: <<node>>, hit]>>, panic]                                *)
-(*   nesting - same forest, 12 faces per node, none lost or duplicated      *)
+(*   nesting - same forest, 12 faces per node (nf[i] where the shells are   *)
+(*             not boxes), none lost or duplicated                          *)
 (*   evenodd - a point is contained iff it is inside an odd number of       *)
 (*   shells                                                                 *)
 (***************************************************************************)
@@ -47,6 +48,8 @@ DirInconsistent(F) == {e \in DirEdgeSet(F) : DirUse(F, e[1], e[2]) >= 2}
 Flip(F, fl) == [i \in 1..Len(F) |-> IF fl[i] THEN <<F[i][2], F[i][1], F[i][3]>> ELSE F[i]]
 OrientableDef(F) == \E fl \in [1..Len(F) -> BOOLEAN] : DirInconsistent(Flip(F, fl)) = {}
 
+RECURSIVE SumTo(_, _)
+SumTo(f(_), n) == IF n = 0 THEN 0 ELSE f(n) + SumTo(f, n - 1)
 Holds(c) ==
     CASE R.kind = "diag" /\ c = "panic" -> R.panic = ""
       [] R.kind = "diag" /\ c = "needs" -> R.needs = NeedsRepairDef(R.F)
@@ -82,7 +85,9 @@ Holds(c) ==
       [] R.kind = "normals" /\ c = "normals" ->
             /\ R.panic = "" /\ SameFaces(R.F, R.out) /\ R.count = Len(R.flipped) /\ DirInconsistent(R.out) = {}
       [] R.kind = "forest" /\ c = "nesting" ->
-            /\ R.panic = "" /\ R.got = R.parent /\ R.nfaces = 12 * Len(R.parent) /\ \A i \in 1..Len(R.per) : R.per[i] = 12
+            LET nf(i) == IF "nf" \in DOMAIN R THEN R.nf[i] ELSE 12 IN
+            /\ R.panic = "" /\ R.got = R.parent /\ \A i \in 1..Len(R.per) : R.per[i] = nf(i)
+            /\ R.nfaces = SumTo(nf, Len(R.parent))
       [] R.kind = "forest" /\ c = "evenodd" ->
             \A i \in 1..Len(R.probes) : R.probes[i].hit = (Len(R.probes[i].in) % 2 = 1)
       [] OTHER -> TRUE
